@@ -31,14 +31,16 @@ template <int N> struct P<N, 0>
 	bool equals(int seed) const { for(int i = 0; i < N; ++i) if(b[i] != patt(seed, i)) return false; return true; }
 	static const bool copyable = true;
 };
-// kind 1: non-trivial, copy + move, every construction / destruction recorded by address
+// kind 1: non-trivial, copy + move, every construction / destruction recorded by address. The move constructor is
+// deliberately not noexcept (kind 3 is the copyable type with a noexcept move): "moving an AnyData moves the held
+// object" must not depend on that
 template <int N> struct P<N, 1>
 {
 	unsigned char b[N];
 	enum { lid = kAuxBase + N * 10 + 1 };
 	explicit P(int seed) { for(int i = 0; i < N; ++i) b[i] = patt(seed, i); ledger().onCtor(this, lid, 0); }
 	P(const P & o) { memcpy(b, o.b, N); ++counters().copies; ledger().onUse(&o, lid); ledger().onCtor(this, lid, 1); }
-	P(P && o) noexcept { memcpy(b, o.b, N); ++counters().moves; ledger().onUse(&o, lid); ledger().onCtor(this, lid, 2); }
+	P(P && o) { memcpy(b, o.b, N); ++counters().moves; ledger().onUse(&o, lid); ledger().onCtor(this, lid, 2); }
 	~P() { ledger().onDtor(this, lid); }
 	bool equals(int seed) const { ledger().onUse(this, lid); for(int i = 0; i < N; ++i) if(b[i] != patt(seed, i)) return false; return true; }
 	static const bool copyable = true;
@@ -134,10 +136,13 @@ CaseResult runCase(const Program & prog)
 			switch(op.kind) {
 			case A_MOVE: {
 				if(usedStores >= 8) break;
-				const long movesBefore = counters().moves;
+				const long movesBefore = counters().moves, copiesBefore = counters().copies;
+				const long useBefore = useCount(cur->template get<T>());
 				AD * next = new (store[usedStores++]) AD(std::move(*cur));
 				shells.push_back(next);
 				cur = next;
+				if(counters().copies != copiesBefore) r.fail("anydata.move.copied", "moving an AnyData copied the held object instead of moving it");
+				if(K == 3 && useCount(cur->template get<T>()) != useBefore) r.fail("anydata.move.shared", "moving an AnyData changed the use_count of the held shared pointer from " + std::to_string(useBefore) + " to " + std::to_string(useCount(cur->template get<T>())) + " (the held object was copied)");
 				if(counters().moves - movesBefore > 1) r.fail("anydata.move.count", "one AnyData move performed " + std::to_string(counters().moves - movesBefore) + " moves of the held object");
 				check(*cur, "after move");
 				break;
@@ -156,7 +161,9 @@ CaseResult runCase(const Program & prog)
 				const int rounds = 1 + (op.a & 1);
 				for(int round = 0; round < rounds && r.ok; ++round) {
 					// slots are recycled across rounds: T, then a payload of a very different size, then T again
+					const long copiesBefore = counters().copies;
 					q.enqueue(3, T(seed));
+					if(counters().copies != copiesBefore) r.fail("anydata.queue.copied", "enqueuing a temporary copied the held object on its way into the queue (the AnyData inside the queued event must be moved)");
 					q.enqueue(4, Partner(seed + 1));
 					// (takeEvent needs a move-assignable QueuedEvent; AnyData is not assignable, so only process/processOne apply)
 					if(op.b & 1) { while(q.processOne()) {} }
